@@ -424,6 +424,38 @@ def regime_task(task):
                         dp = float(np.max(np.abs(Pi - mp)))
                         if dp > tol or float(np.max(np.abs(Mi - mm))) > TOL:
                             viols.append((name, lever, rkey, st, form, f"position off by {dp:.3g} (lever {size:.3g}, tolerance {tol:.3g})"))
+            # numpy integers as start (the documented type is int): they mean the integer they hold, on short and long paths
+            if name == "unit" and lever == 1.0:
+                for Lp in (L, 200):
+                    Pp = np.array([(0.1 * i, -0.05 * i, 0.02 * i) for i in range(Lp)]) + 1.0
+                    Mp = np.tile(np.eye(3), (Lp, 1, 1))
+                    for stn in (np.int8(-3), np.int64(2), np.uint8(250), np.int16(-300), np.int32(0), np.uint16(5)):
+                        for form in ("move_s", "move_v10", "rot_s", "rot_v2"):
+                            o = mk("Sensor", Pp, Mp)
+                            m = PathModel(Pp, Mp)
+                            n += 1
+                            before = (o._position.tobytes(), o._orientation.as_quat().tobytes())
+                            try:
+                                if form == "move_s":
+                                    o.move((1.0, 2.0, 3.0), start=stn)
+                                    m.move((1.0, 2.0, 3.0), int(stn))
+                                elif form == "move_v10":
+                                    o.move([(1.0, 0.0, 0.0)] * 10, start=stn)
+                                    m.move([(1.0, 0.0, 0.0)] * 10, int(stn))
+                                elif form == "rot_s":
+                                    o.rotate(Rot(ROT["s"]), anchor=(1.0, 1, 1), start=stn)
+                                    m.rotate(Rot(ROT["s"]).as_matrix(), (1.0, 1, 1), int(stn))
+                                else:
+                                    o.rotate(Rot(ROT["v2"]), anchor=0, start=stn)
+                                    m.rotate(Rot(ROT["v2"]).as_matrix(), 0, int(stn))
+                            except Exception as e:
+                                changed = (o._position.tobytes(), o._orientation.as_quat().tobytes()) != before or len(o._position) != len(o._orientation)
+                                viols.append((name, f"L={Lp}", type(stn).__name__, int(stn), form, f"valid numpy-integer start raised {type(e).__name__}" + (" and changed the object" if changed else "")))
+                                continue
+                            Pi, Mi = read(o)
+                            mp, mm = m.arrays()
+                            if len(Pi) != len(mp) or float(np.max(np.abs(Pi - mp))) > 1e-12 or float(np.max(np.abs(Mi - mm))) > TOL:
+                                viols.append((name, f"L={Lp}", type(stn).__name__, int(stn), form, f"start={stn!r} does not act like start={int(stn)}"))
             # translations and assignments by a small fraction of the object size: nothing is too small to matter
             dsc = np.array((0.6, -0.4, 0.8)) * lever * scale
             dvec = np.array([(0.6, -0.4, 0.8), (-0.2, 0.5, 0.1)]) * lever * scale
@@ -672,8 +704,9 @@ def run(tier, seed):
     nF = sum(r[0] for r in resF)
     for n_, vs in resF:
         for name, lever, rkey, st, form, msg in vs:
-            viols.append({"key": f"C09|regime={name}|lever={lever:g}|{form}|{msg.split(' ')[0]}",
-                          "what": f"regime {name} lever {lever:g} {form} rot={rkey} start={st}: {msg}",
+            lv = f"{lever:g}" if not isinstance(lever, str) else lever
+            viols.append({"key": f"C09|regime={name}|lever={lv}|{form}|{msg.split(' ')[0]}" if not isinstance(lever, str) else f"C09|numpy-start|{rkey}|{form}|{'raised' if 'raised' in msg else 'differs'}",
+                          "what": f"regime {name} lever {lv} {form} rot={rkey} start={st}: {msg}",
                           "case": {"part": "F", "regime": name}, "observed": msg})
 
     harness = []
